@@ -163,10 +163,21 @@ Definition live (s : mstate) : export :=
      x_events := m_events s; x_evdropped := m_evdropped s;
      x_links := m_links s; x_lkdropped := m_lkdropped s |}.
 
-(** snapshot(): what End hands to the span processors.  As in the code, the
-    dropped-event and dropped-link counters are copied only when the
-    respective queue is non-empty. *)
+(** snapshot(): what End hands to the span processors (attributes are
+    de-duplicated only when there are any; the drop counters are copied
+    unconditionally since fix 543ed08). *)
 Definition snapshot (s : mstate) : export :=
+  {| x_name := m_name s; x_status := m_status s;
+     x_attrs := match m_attrs s with [] => [] | _ => dedupe (m_attrs s) end;
+     x_dropped := m_dropped s;
+     x_events := m_events s; x_evdropped := m_evdropped s;
+     x_links := m_links s; x_lkdropped := m_lkdropped s |}.
+
+(** snapshot() as it was before fix 543ed08 (F-C04-2 / F-C04-3): the
+    dropped-event and dropped-link counters were copied only when the
+    respective queue was non-empty.  Kept as documentation of the repaired
+    defect; not used by the correspondence. *)
+Definition snapshot_before_fix (s : mstate) : export :=
   {| x_name := m_name s; x_status := m_status s;
      x_attrs := match m_attrs s with [] => [] | _ => dedupe (m_attrs s) end;
      x_dropped := m_dropped s;
